@@ -323,6 +323,7 @@ pub fn sweep_addrs(ctx: &Ctx, model: &mut Model, st: &mut Stats, addrs: &[AddrRe
 }
 
 pub fn sweep_list(ctx: &Ctx, model: &mut Model, st: &mut Stats) -> Result<(), String> {
+    ctx.cache_is_same_dir()?;
     let s = Step { op: Op::List, fl: Fl::Sync };
     let r = run_step(ctx, &s);
     st.eval(1);
